@@ -60,8 +60,9 @@ FilterBuilt(f, v) == IF f \in indexed
                      ELSE Filter(f, v)
 IndexIndependent == \A f \in {"x", "y"}, v \in Vals : FilterBuilt(f, v) = Filter(f, v)
 
-(* ---- beta: universe of 5 facts with join keys ---- *)
-BKey == <<"i1", "i1", "s1", "none", "f1">>
+(* ---- beta: universe of 6 facts with join keys; "sx" is a string with a backslash, quotes and a newline ---- *)
+BKey == <<"i1", "i1", "s1", "none", "f1", "sx">>
+NB == 6
 BAdd(i)    == /\ m = "beta" /\ i \notin liveb /\ liveb' = liveb \cup {i} /\ UNCHANGED <<m, facts, indexed, seen, added>>
               /\ last' = [op |-> "add", i |-> i]
 BRemove(i) == /\ m = "beta" /\ liveb' = liveb \ {i} /\ UNCHANGED <<m, facts, indexed, seen, added>>
@@ -75,8 +76,10 @@ NSets == 12
 MEval(n, fs) == /\ m = "memo" /\ (<<n, fs>> \in seen \/ Cardinality(seen) < MemoDepth) /\ seen' = seen \cup {<<n, fs>>} /\ UNCHANGED <<m, facts, indexed, liveb, added>>
                 /\ last' = [op |-> "evaluate", n |-> n, fs |-> fs]
 
-(* ---- concl: rule universe; rule r assigns field CF[r]; rule 5 is disabled ---- *)
-CF == <<"A.x", "A.x", "A.y", "AB.x", "A.x">>
+(* ---- concl: rule universe; rule r assigns field CF[r]; rule 5 is disabled; rule 6 is enabled but carries a date window that *)
+(* has not begun yet (date attributes gate FIRING in the forward engine; the index proposes every ENABLED rule)               *)
+CF == <<"A.x", "A.x", "A.y", "AB.x", "A.x", "A.y">>
+NC == 6
 CEnabled(r) == r # 5
 CAdd(r)    == /\ m = "concl" /\ added' = added \cup {r} /\ UNCHANGED <<m, facts, indexed, liveb, seen>>
               /\ last' = [op |-> "add_rule", r |-> r]
@@ -88,25 +91,25 @@ Next == /\ nops' = nops + 1
         /\ \/ \E x \in Machines : Choose(x)
            \/ \E x \in XVals, y \in YVals : AInsert(x, y)
            \/ \E f \in {"x", "y"} : ACreate(f) \/ ADrop(f)
-           \/ \E i \in 1..5 : BAdd(i) \/ BRemove(i)
+           \/ \E i \in 1..NB : BAdd(i) \/ BRemove(i)
            \/ \E n \in 1..NNodes, fs \in 1..NSets : MEval(n, fs)
-           \/ \E r \in 1..5 : CAdd(r) \/ CRemove(r)
+           \/ \E r \in 1..NC : CAdd(r) \/ CRemove(r)
 Spec == Init /\ [][Next]_vars
 
 -----------------------------------------------------------------------------------------
 SetFn(S, D) == [d \in D |-> d \in S]
 Obs == CASE m = "alpha" -> [filter |-> [f \in {"x", "y"} |-> [v \in Vals |-> SetFn(Filter(f, v), 1..MaxFacts)]],
                             n |-> Len(facts)]
-         [] m = "beta"  -> [lookup |-> [v \in {"i1", "s1", "f1"} |-> SetFn(Lookup(v), 1..5)]]
+         [] m = "beta"  -> [lookup |-> [v \in {"i1", "s1", "f1", "sx"} |-> SetFn(Lookup(v), 1..NB)]]
          [] m = "memo"  -> [agrees |-> TRUE]
-         [] m = "concl" -> [missing |-> [g \in {"A.x", "A.y", "AB.x"} |-> SetFn({}, 1..5)],
-                            required |-> [g \in {"A.x", "A.y", "AB.x"} |-> SetFn(Required(g), 1..5)]]
+         [] m = "concl" -> [missing |-> [g \in {"A.x", "A.y", "AB.x"} |-> SetFn({}, 1..NC)],
+                            required |-> [g \in {"A.x", "A.y", "AB.x"} |-> SetFn(Required(g), 1..NC)]]
          [] OTHER -> [none |-> TRUE]
 
 Reach_IndexedSpecialFloat == ~(m = "alpha" /\ "x" \in indexed /\ \E i, j \in DOMAIN facts : facts[i].x = "z" /\ facts[j].x = "nz")
 Bound == nops <= MaxOps
 View == <<m, facts, indexed, liveb, seen, added>>
-StateRec == [m |-> m, facts |-> facts, indexed |-> SetFn(indexed, {"x", "y"}), liveb |-> SetFn(liveb, 1..5),
-             seen |-> [n \in 1..NNodes |-> [fs \in 1..NSets |-> <<n, fs>> \in seen]], added |-> SetFn(added, 1..5)]
+StateRec == [m |-> m, facts |-> facts, indexed |-> SetFn(indexed, {"x", "y"}), liveb |-> SetFn(liveb, 1..NB),
+             seen |-> [n \in 1..NNodes |-> [fs \in 1..NSets |-> <<n, fs>> \in seen]], added |-> SetFn(added, 1..NC)]
 Edge == PrintT(ToJson([s |-> StateRec, l |-> last', o |-> Obs', t |-> StateRec']))
 =========================================================================================
